@@ -1185,6 +1185,9 @@ def run_boundary(R: Run, deep: bool = False):
                         continue
                     if "dlon=0" in kind or "dlon=-0" in kind or kind.startswith("world"):
                         continue  # touches the antimeridian: wrapdateline=True is allowed to chop it
+                    if not deep and R.quick and not (kind.startswith(("multipoint", "polygon")) and
+                                                      any(kind.endswith(f"={sg_}{d_:g}") for sg_ in ("", "-") for d_ in (1e-4, 5e-5, 1e-7))):
+                        continue  # wrapdateline=True re-projects the antimeridian on every call (18 ms): a subset in quick
                     try:
                         with warnings.catch_warnings():
                             warnings.simplefilter("ignore")
@@ -1237,7 +1240,8 @@ def run_to_crs_pyproj(R: Run):
     codes = {"4326": ("world",), "3857": ("world",), "6933": ("world",), "3577": ("australia",), "32633": ("utm33",),
              "4283": ("australia",), "4258": ("utm33",)}
     names = list(codes)
-    optsets = [dict(wrapdateline=w, check_and_fix=c) for w in (False, True) for c in (False, True)]
+    optsets = [dict(wrapdateline=w, check_and_fix=c) for w in (False, True) for c in (False, True)
+               if not (R.quick and w and c)]
     for a, b in itertools.permutations(names, 2):
         regs = set(codes[a]) | set(codes[b])
         regs.discard("world")
@@ -1342,7 +1346,7 @@ def run_to_crs_pyproj(R: Run):
     run_spelling_matrix(R)
 
     # ---- C. caches as a history
-    nbad = run_crs_churn(R, R.pick(340, 1500))
+    nbad = run_crs_churn(R, R.pick(300, 1500))
     R.count("crs-churn-bad-tiles", nbad)
 
     # ---- D. resolution="auto" on every kind (zero-area kinds used to hang)
